@@ -81,6 +81,7 @@ func Gen(prop, tier string, seed uint64) *kernel.Plan {
 		cfg.HoldPub = g.Chance(1, 2)
 	case "C12":
 		cfg.Oracles["serial"] = true
+		cfg.Yields = g.Chance(2, 3)
 	case "C13":
 		cfg.Oracles["entry"] = true
 	case "C14":
